@@ -77,7 +77,7 @@ goalign build seqboot -i align.phylip -p -n 500 -o boot_
 
 		// We take the first alignment of the channel
 		al = <-alignChan.Achan
-		if alignChan.Err != nil {
+		if al == nil {
 			err = alignChan.Err
 			io.LogError(err)
 			return
